@@ -1,7 +1,7 @@
 (** Prop_C10.v -- C10: any crash leaves a database the server can restart
     from and clean up. *)
 From MW Require Import Base Store Monad Usage Server Websocket Service Findings Inv Obs
-     StepFacts SweepFacts TimeInv Corollaries QuiesceFacts NpFactsA MbFactsA MbFactsB DupFacts ResumeFacts ResumeMore Inst_Params.
+     StepFacts SweepFacts TimeInv Corollaries QuiesceFacts NpFactsA MbFactsA MbFactsB DupFacts ResumeFacts ResumeMore Inst_Params CrashAck.
 Local Open Scope list_scope.
 
 (** histories may contain any number of [ECrash k e] events: the process dies
@@ -219,4 +219,48 @@ Theorem C10_close_resume_nonvacuous : ltac:(let t := type of close_resume_nonvac
 Proof. exact close_resume_nonvacuous. Qed.
 Check C10_close_resume_nonvacuous.
 Print Assumptions C10_close_resume_nonvacuous.
+
+(** * sweeps really complete; more resumed commands (quoted by type from CrashAck.v) *)
+
+(** `prune_all_apps` itself never raises on a well-formed database (expire() would swallow it: this is the load-bearing fact) *)
+Theorem C10_prune_never_fails : ltac:(let t := type of prune_never_fails in exact t).
+Proof. exact prune_never_fails. Qed.
+Check C10_prune_never_fails.
+Print Assumptions C10_prune_never_fails.
+
+(** the timer callback never raises *)
+Theorem C10_expire_total : ltac:(let t := type of expire_total in exact t).
+Proof. exact expire_total. Qed.
+Check C10_expire_total.
+Print Assumptions C10_expire_total.
+
+(** the start-up sweep after a crash at any commit of any event: prune and dump_stats both complete *)
+Theorem C10_crash_boot_prune_completes : ltac:(let t := type of crash_boot_prune_completes in exact t).
+Proof. exact crash_boot_prune_completes. Qed.
+Check C10_crash_boot_prune_completes.
+Print Assumptions C10_crash_boot_prune_completes.
+
+(** (clean restart) *)
+Theorem C10_restart_prune_completes : ltac:(let t := type of restart_prune_completes in exact t).
+Proof. exact restart_prune_completes. Qed.
+Check C10_restart_prune_completes.
+Print Assumptions C10_restart_prune_completes.
+
+(** a close sent on a connection that had NOT opened the mailbox, crashed at any commit and re-sent: `closed`, the uncrashed channel database *)
+Theorem C10_close_fresh_resume : ltac:(let t := type of close_fresh_resume in exact t).
+Proof. exact close_fresh_resume. Qed.
+Check C10_close_fresh_resume.
+Print Assumptions C10_close_fresh_resume.
+
+(** a claim whose answer is `crowded` (it commits the refused side's rows first), crashed and re-sent: `crowded` again, the same database *)
+Theorem C10_claim_resume_error : ltac:(let t := type of claim_resume_error in exact t).
+Proof. exact claim_resume_error. Qed.
+Check C10_claim_resume_error.
+Print Assumptions C10_claim_resume_error.
+
+(** non-vacuity (5 commits, every k) *)
+Theorem C10_close_fresh_resume_nonvacuous : ltac:(let t := type of close_fresh_resume_nonvacuous in exact t).
+Proof. exact close_fresh_resume_nonvacuous. Qed.
+Check C10_close_fresh_resume_nonvacuous.
+Print Assumptions C10_close_fresh_resume_nonvacuous.
 
